@@ -938,7 +938,7 @@ Proof.
   assert (Hu : forall X, sum_by (fun e : N * (N * N * N) => let '(st, _, mo) := snd e in if st =? X then mo / unit else 0)
                   (map (fun e : N * acct => (fst e, (a_st (snd e), money_at unit L (snd e), a_malgos (snd e)))) w)
                = sum_by (fun e => cls_units unit X (snd e)) w).
-  { intros X. induction w as [|[k a] w IH]; [reflexivity|]. unfold sum_by in *. cbn [map fold_right fst snd]. Show. rewrite IH. reflexivity. }
+  { clear Hm. intros X. induction w as [|[k a] w IH]; [reflexivity|]. unfold sum_by in *. cbn [map fold_right fst snd]. rewrite IH. reflexivity. }
   rewrite !Hm, !Hu. reflexivity.
 Qed.
 
